@@ -287,6 +287,8 @@ where
     L: Flat + Length,
 {
     unsafe fn validate_unchecked(bytes: &[u8]) -> Result<(), Error> {
+        // Only the part covered by `Self::ptr_from_bytes` belongs to the vector.
+        let bytes = unsafe { bytes.get_unchecked(..floor_mul(bytes.len(), Self::ALIGN)) };
         for item_bytes in DataIter::<'_, T, L, _>::new(bytes) {
             T::validate(item_bytes?)?;
         }
